@@ -2,30 +2,38 @@ package main
 
 // C27 — value is conserved by every accepted transaction.
 //
-//	op:  vc <era> <kd> <pd> <dd> <fee> <mint> <zmint> <don> item*
+//	op:  vc <era> <valid> <kd> <pd> <dd> <fee> <don> item*
+//	     valid = IsValid flag (Alonzo..Conway can encode 0; Dijkstra refuses it at decode)
 //	     kd/pd/dd = KeyDeposit / PoolDeposit / DRepDeposit parameters
-//	     mint  = minted quantity of the token T (signed, 0 = none)
-//	     zmint = minted quantity under the all-zero policy id with empty asset name (0 = none)
 //	     don   = treasury donation (Conway+, 0 = none)
+//	     a bundle is `-` or `id=q,id=q,...`: asset id 0 = all-zero policy id with empty
+//	     name, id n>=1 = policy ceil(n/2), name "tok<n>" (two assets per policy)
 //	     items:
-//	       i:<r|u>:<coin>:<tok>      input; r = resolves in the ledger state, u = does not
-//	       o:<coin>:<tok>            output
+//	       i:<r|u>:<coin>:<bundle>   input; r = resolves in the ledger state, u = does not
+//	       o:<coin>:<bundle>         output
+//	       m:<bundle>                mint field (signed quantities)
 //	       w:<amount>                withdrawal
 //	       p:<deposit>               proposal procedure (Conway+)
+//	       k:<r|u>:<coin>            collateral input (Alonzo+)
+//	       kr:<coin>                 collateral return (Babbage+)
+//	       kt:<n>                    total collateral (Babbage+)
 //	       c:sreg | c:sdereg | c:sdeleg | c:pret
 //	       c:preg:<n|o>:<id>         pool registration, n = pool id not registered in the state, o = registered
 //	       c:reg:<amt> | c:unreg:<amt>:<recorded> | c:srd:<amt> | c:vrd:<amt> | c:svrd:<amt>
 //	       c:dreg:<amt> | c:dunreg:<amt>:<recorded> | c:vdeleg      (Conway+)
-//	out: decode-err | vc=<ok|vnc|baddep|err:<type>> bad=<0|1>
+//	out: decode-err | vc=<ok|vnc|baddep> bad=<0|1> dep=<0|1>
 //	     vc  = verdict of the value-conservation errors over the era's whole rule list
 //	     bad = 1 iff some rule returned BadInputsUtxoError
+//	     dep = 1 iff some rule returned IncorrectCertificateDepositError
 //
-// The transaction is built as CBOR and decoded by the era decoder.
+// The transaction is built as CBOR and decoded by the era decoder; the mock ledger
+// state resolves the `r` inputs, knows the `o` pools and records the DRep deposits.
 
 import (
 	"errors"
 	"fmt"
 	"math/big"
+	"sort"
 	"strconv"
 	"strings"
 
@@ -60,6 +68,92 @@ func c27PoolReg(poolId int) []byte {
 		cbTag(30, cbArray(cbUint(1), cbUint(10))), cbBytes(rewardAcct), cbArray(cbBytes(c27Hash28(0xc0, 1))), cbArray(), cbNull())
 }
 
+// asset id -> (policy bytes, asset name)
+func c27Asset(id int) ([]byte, []byte) {
+	if id == 0 {
+		return make([]byte, 28), []byte{}
+	}
+	return c27Hash28(0xaa, (id+1)/2), []byte(fmt.Sprintf("tok%d", id))
+}
+
+type c27Entry struct {
+	id int
+	q  *big.Int
+}
+
+func c27ParseBundle(s string) ([]c27Entry, bool) {
+	if s == "-" {
+		return nil, true
+	}
+	res := []c27Entry{}
+	seen := map[int]bool{}
+	for _, e := range strings.Split(s, ",") {
+		p := strings.Split(e, "=")
+		if len(p) != 2 {
+			return nil, false
+		}
+		id, err := strconv.Atoi(p[0])
+		q, ok := new(big.Int).SetString(p[1], 10)
+		if err != nil || !ok || id < 0 || id > 60 || seen[id] {
+			return nil, false
+		}
+		seen[id] = true
+		res = append(res, c27Entry{id, q})
+	}
+	return res, true
+}
+
+// c27BundleCbor encodes a bundle as the nested policy -> name -> quantity map.
+func c27BundleCbor(b []c27Entry) []byte {
+	byPol := map[string][][]byte{}
+	order := []string{}
+	for _, e := range b {
+		pol, name := c27Asset(e.id)
+		k := string(pol)
+		if _, ok := byPol[k]; !ok {
+			order = append(order, k)
+		}
+		byPol[k] = append(byPol[k], cbBytes(name), cbInt(e.q))
+	}
+	kv := [][]byte{}
+	for _, k := range order {
+		kv = append(kv, cbBytes([]byte(k)), cbMap(byPol[k]...))
+	}
+	return cbMap(kv...)
+}
+
+func c27MultiAsset(b []c27Entry) *common.MultiAsset[common.MultiAssetTypeOutput] {
+	m := map[common.Blake2b224]map[cbor.ByteString]common.MultiAssetTypeOutput{}
+	for _, e := range b {
+		pol, name := c27Asset(e.id)
+		k := common.NewBlake2b224(pol)
+		if m[k] == nil {
+			m[k] = map[cbor.ByteString]common.MultiAssetTypeOutput{}
+		}
+		m[k][cbor.NewByteString(name)] = new(big.Int).Set(e.q)
+	}
+	ma := common.NewMultiAsset[common.MultiAssetTypeOutput](m)
+	return &ma
+}
+
+func c27BundleStr(m map[int]*big.Int) string {
+	ids := []int{}
+	for id, q := range m {
+		if q.Sign() != 0 {
+			ids = append(ids, id)
+		}
+	}
+	if len(ids) == 0 {
+		return "-"
+	}
+	sort.Ints(ids)
+	parts := []string{}
+	for _, id := range ids {
+		parts = append(parts, fmt.Sprintf("%d=%s", id, m[id].String()))
+	}
+	return strings.Join(parts, ",")
+}
+
 func genC27(r *Rand, n int, tier string, emit func(string)) {
 	for i := 0; i < n; i++ {
 		era := g1Eras[r.Intn(len(g1Eras))]
@@ -69,8 +163,8 @@ func genC27(r *Rand, n int, tier string, emit func(string)) {
 		dd := Pick(r, uint64(500000000), 2000000, 0, uint64(r.Intn(1000000000)))
 		fee := Pick(r, uint64(170000), 0, uint64(r.Intn(1000000)))
 		items := []string{}
-		var consumed, produced, tokOut big.Int
-		var consumedC, producedC big.Int // the balance as the code computes it (certificate amounts, per-certificate pool deposits)
+		var consumed, produced big.Int
+		var consumedC, producedC big.Int // the balance as the code computes it (certificate amounts)
 		add := func(z *big.Int, v uint64) { z.Add(z, new(big.Int).SetUint64(v)) }
 		add(&produced, fee)
 		add(&producedC, fee)
@@ -113,8 +207,10 @@ func genC27(r *Rand, n int, tier string, emit func(string)) {
 					id += 10 // ids >= 10 are never registered in the state
 					if !newPools[id] {
 						add(&produced, pd)
+						add(&producedC, pd)
+					} else if r.Chance(1, 2) {
+						add(&producedC, pd) // as the code did before the seen-set fix
 					}
-					add(&producedC, pd)
 					newPools[id] = true
 				}
 				items = append(items, fmt.Sprintf("c:preg:%s:%d", st, id))
@@ -163,111 +259,193 @@ func genC27(r *Rand, n int, tier string, emit func(string)) {
 				add(&producedC, don)
 			}
 		}
+		// assets in play: a few ids, sometimes the zero-policy one
+		assetIds := []int{}
+		if ei >= 2 && r.Chance(2, 3) {
+			for _, id := range []int{1, 2, 3, 4, 5} {
+				if r.Chance(1, 2) {
+					assetIds = append(assetIds, id)
+				}
+			}
+			if r.Chance(1, 8) {
+				assetIds = append(assetIds, 0)
+			}
+		}
+		tokOut := map[int]*big.Int{}
+		for _, id := range assetIds {
+			tokOut[id] = new(big.Int)
+		}
 		// outputs
-		hasTok := ei >= 2 && r.Chance(1, 2)
 		for j := Pick(r, 1, 1, 2, 3); j > 0; j-- {
 			c := Pick(r, uint64(1000000+r.Intn(9000000)), uint64(r.Intn(3)), r.EdgeU64()>>8)
-			t := uint64(0)
-			if hasTok && r.Bool() {
-				t = Pick(r, uint64(1+r.Intn(100)), r.EdgeU64()>>2)
+			b := map[int]*big.Int{}
+			for _, id := range assetIds {
+				if r.Chance(1, 2) {
+					q := new(big.Int).SetUint64(Pick(r, uint64(1+r.Intn(100)), r.EdgeU64()>>2))
+					b[id] = q
+					tokOut[id].Add(tokOut[id], q)
+				}
 			}
 			add(&produced, c)
 			add(&producedC, c)
-			add(&tokOut, t)
-			items = append(items, fmt.Sprintf("o:%d:%d", c, t))
+			items = append(items, fmt.Sprintf("o:%d:%s", c, c27BundleStr(b)))
 		}
-		// mint / burn
-		mint := new(big.Int)
-		if hasTok && r.Chance(1, 2) {
-			mint.SetInt64(int64(r.Intn(200)) - 100)
+		// mint / burn per asset
+		mint := map[int]*big.Int{}
+		for _, id := range assetIds {
+			if r.Chance(1, 2) {
+				mint[id] = big.NewInt(int64(r.Intn(200)) - 100)
+			}
 		}
 		zmint := int64(0)
 		if ei >= 2 && r.Chance(1, 10) {
 			zmint = Pick(r, int64(7000000), int64(1), int64(-5), int64(r.Intn(1000000)))
+			if mint[0] == nil {
+				mint[0] = big.NewInt(zmint)
+			} else {
+				zmint = mint[0].Int64()
+			}
+		} else if mint[0] != nil {
+			zmint = mint[0].Int64()
 		}
-		// inputs: balance coin and token (mostly), spread over 1..3 inputs, some unresolvable
+		if len(mint) > 0 && c27BundleStr(mint) != "-" {
+			items = append(items, "m:"+c27BundleStr(mint))
+		}
+		// inputs: balance coin and every asset (mostly), spread over 1..3 inputs
 		needCoin := new(big.Int).Sub(&produced, &consumed)
 		if r.Chance(1, 3) {
-			// balance the transaction the way the code computes it
-			needCoin = new(big.Int).Sub(&producedC, &consumedC)
+			needCoin = new(big.Int).Sub(&producedC, &consumedC) // balance as the code sees it
 		}
-		needTok := new(big.Int).Sub(&tokOut, mint)
-		mode := r.Intn(8)
+		needTok := map[int]*big.Int{}
+		for _, id := range assetIds {
+			needTok[id] = new(big.Int).Set(tokOut[id])
+			if m := mint[id]; m != nil {
+				needTok[id].Sub(needTok[id], m)
+			}
+		}
+		mode := r.Intn(9)
 		switch mode {
 		case 0:
 			needCoin.Add(needCoin, big.NewInt(1))
 		case 1:
 			needCoin.Sub(needCoin, big.NewInt(1))
 		case 2:
-			needTok.Add(needTok, big.NewInt(1))
+			if len(assetIds) > 0 { // one asset off by one, the others balanced
+				id := assetIds[r.Intn(len(assetIds))]
+				needTok[id].Add(needTok[id], big.NewInt(int64(1-2*r.Intn(2))))
+			}
 		case 3, 4:
-			// as if the zero-policy mint were coin: the inputs are short by zmint
-			needCoin.Sub(needCoin, big.NewInt(zmint))
+			needCoin.Sub(needCoin, big.NewInt(zmint)) // as if the zero-policy mint were coin
+		case 5:
+			if len(assetIds) > 1 { // move one unit from one asset to another (totals unchanged)
+				a, b := assetIds[0], assetIds[1]
+				needTok[a].Add(needTok[a], big.NewInt(1))
+				needTok[b].Sub(needTok[b], big.NewInt(1))
+			}
 		}
 		if needCoin.Sign() < 0 || !needCoin.IsUint64() {
 			needCoin = big.NewInt(int64(r.Intn(1000)))
 		}
-		if needTok.Sign() < 0 || !needTok.IsUint64() || ei < 2 {
-			needTok = big.NewInt(0) // Shelley/Allegra outputs cannot hold tokens
+		for id, v := range needTok {
+			if v.Sign() < 0 || !v.IsUint64() {
+				needTok[id] = big.NewInt(0)
+			}
 		}
 		ni := Pick(r, 1, 1, 2, 3)
-		rc, rt := needCoin.Uint64(), needTok.Uint64()
+		rc := needCoin.Uint64()
+		rem := map[int]uint64{}
+		for id, v := range needTok {
+			rem[id] = v.Uint64()
+		}
 		for j := 0; j < ni; j++ {
-			c, t := rc, rt
-			if j < ni-1 {
-				if rc > 0 {
-					c = r.U64() % (rc + 1)
-				}
-				if rt > 0 {
-					t = r.U64() % (rt + 1)
-				}
+			c := rc
+			if j < ni-1 && rc > 0 {
+				c = r.U64() % (rc + 1)
 			}
 			rc -= c
-			rt -= t
+			b := map[int]*big.Int{}
+			for _, id := range assetIds {
+				t := rem[id]
+				if j < ni-1 && t > 0 {
+					t = r.U64() % (t + 1)
+				}
+				rem[id] -= t
+				b[id] = new(big.Int).SetUint64(t)
+			}
 			res := "r"
 			if r.Chance(1, 15) {
 				res = "u"
 			}
-			items = append(items, fmt.Sprintf("i:%s:%d:%d", res, c, t))
+			items = append(items, fmt.Sprintf("i:%s:%d:%s", res, c, c27BundleStr(b)))
 		}
-		emit(fmt.Sprintf("vc %s %d %d %d %d %s %d %d %s", era, kd, pd, dd, fee, mint.String(), zmint, don, strings.Join(items, " ")))
+		// phase-2 fields
+		valid := "1"
+		if ei >= 3 {
+			if r.Chance(1, 4) {
+				for j := Pick(r, 1, 1, 2); j > 0; j-- {
+					items = append(items, fmt.Sprintf("k:%s:%d", Pick(r, "r", "r", "r", "u"), 1000000+r.Intn(5000000)))
+				}
+				if ei >= 4 && r.Bool() {
+					items = append(items, fmt.Sprintf("kr:%d", r.Intn(1000000)))
+				}
+				if ei >= 4 && r.Bool() {
+					items = append(items, fmt.Sprintf("kt:%d", r.Intn(6000000)))
+				}
+			}
+			if r.Chance(1, 5) {
+				valid = "0"
+			}
+		}
+		emit(fmt.Sprintf("vc %s %s %d %d %d %d %d %s", era, valid, kd, pd, dd, fee, don, strings.Join(items, " ")))
 	}
 }
 
 func runC27(op string) string {
 	f := strings.Fields(op)
-	if len(f) < 9 || f[0] != "vc" || g1EraIndex(f[1]) < 0 {
+	if len(f) < 8 || f[0] != "vc" || g1EraIndex(f[1]) < 0 || (f[2] != "0" && f[2] != "1") {
 		return "bad-op"
 	}
 	era := f[1]
 	ei := g1EraIndex(era)
+	valid := f[2] == "1"
 	pu := func(s string) (uint64, bool) { v, e := strconv.ParseUint(s, 10, 64); return v, e == nil }
-	kd, o1 := pu(f[2])
-	pd, o2 := pu(f[3])
-	dd, o3 := pu(f[4])
-	fee, o4 := pu(f[5])
-	mint, o5 := new(big.Int).SetString(f[6], 10)
-	zmint, e6 := strconv.ParseInt(f[7], 10, 64)
-	don, o7 := pu(f[8])
-	if !(o1 && o2 && o3 && o4 && o5 && o7) || e6 != nil || !mint.IsInt64() {
+	kd, o1 := pu(f[3])
+	pd, o2 := pu(f[4])
+	dd, o3 := pu(f[5])
+	fee, o4 := pu(f[6])
+	don, o7 := pu(f[7])
+	if !(o1 && o2 && o3 && o4 && o7) || (!valid && ei < 3) {
 		return "bad-op"
 	}
-	policy := c27Hash28(0xaa, 1)
-	name := []byte("tok")
-	val := func(coin, tok uint64) []byte {
-		if tok == 0 {
+	val := func(coin uint64, b []c27Entry) []byte {
+		if len(b) == 0 {
 			return cbUint(coin)
 		}
-		return cbArray(cbUint(coin), cbMap(cbBytes(policy), cbMap(cbBytes(name), cbUint(tok))))
+		return cbArray(cbUint(coin), c27BundleCbor(b))
 	}
-	ins, outs, certs, props := [][]byte{}, [][]byte{}, [][]byte{}, [][]byte{}
+	ins, outs, certs, props, colls := [][]byte{}, [][]byte{}, [][]byte{}, [][]byte{}, [][]byte{}
+	var mintB []c27Entry
+	var collRet []byte
+	var totalColl *uint64
 	wkv := [][]byte{}
 	utxos := []common.Utxo{}
 	pools := []common.PoolRegistrationCertificate{}
+	dreps := []common.DRepRegistration{}
 	seenPool := map[int]bool{}
 	a, _ := common.NewAddressFromBytes(g1Addr(7))
 	nIn, nW := 0, 0
-	for _, it := range f[9:] {
+	mkUtxo := func(n int, coin uint64, b []c27Entry) {
+		v := mary.MaryTransactionOutputValue{Amount: coin}
+		if len(b) > 0 {
+			v.Assets = c27MultiAsset(b)
+		}
+		var out common.TransactionOutput = mary.MaryTransactionOutput{OutputAddress: a, OutputAmount: v}
+		if ei < 2 {
+			out = shelley.ShelleyTransactionOutput{OutputAddress: a, OutputAmount: coin}
+		}
+		utxos = append(utxos, common.Utxo{Id: shelley.NewShelleyTransactionInput(fmt.Sprintf("%x", g1TxHash(n)), 0), Output: out})
+	}
+	for _, it := range f[8:] {
 		p := strings.Split(it, ":")
 		num := func(i int) uint64 {
 			if i >= len(p) {
@@ -281,34 +459,65 @@ func runC27(op string) string {
 			if len(p) != 4 {
 				return "bad-op"
 			}
-			nIn++
-			ins = append(ins, g1TxIn(nIn, 0))
-			if ei < 2 && num(3) != 0 {
+			b, ok := c27ParseBundle(p[3])
+			if !ok || (ei < 2 && len(b) > 0) {
 				return "bad-op"
 			}
-			if p[1] == "r" {
-				v := mary.MaryTransactionOutputValue{Amount: num(2)}
-				if t := num(3); t > 0 {
-					ma := common.NewMultiAsset[common.MultiAssetTypeOutput](
-						map[common.Blake2b224]map[cbor.ByteString]common.MultiAssetTypeOutput{
-							common.NewBlake2b224(policy): {cbor.NewByteString(name): new(big.Int).SetUint64(t)},
-						})
-					v.Assets = &ma
+			for _, e := range b {
+				if e.q.Sign() < 0 || !e.q.IsUint64() {
+					return "bad-op"
 				}
-				var out common.TransactionOutput = mary.MaryTransactionOutput{OutputAddress: a, OutputAmount: v}
-				if ei < 2 {
-					out = shelley.ShelleyTransactionOutput{OutputAddress: a, OutputAmount: num(2)}
-				}
-				utxos = append(utxos, common.Utxo{Id: shelley.NewShelleyTransactionInput(fmt.Sprintf("%x", g1TxHash(nIn)), 0), Output: out})
 			}
+			nIn++
+			ins = append(ins, g1TxIn(nIn, 0))
+			if p[1] == "r" {
+				mkUtxo(nIn, num(2), b)
+			}
+		case "k":
+			if len(p) != 3 || ei < 3 {
+				return "bad-op"
+			}
+			nIn++
+			colls = append(colls, g1TxIn(nIn, 0))
+			if p[1] == "r" {
+				mkUtxo(nIn, num(2), nil)
+			}
+		case "kr":
+			if ei < 4 {
+				return "bad-op"
+			}
+			collRet = cbArray(cbBytes(g1Addr(7)), cbUint(num(1)))
+		case "kt":
+			if ei < 4 {
+				return "bad-op"
+			}
+			v := num(1)
+			totalColl = &v
 		case "o":
 			if len(p) != 3 {
 				return "bad-op"
 			}
-			if ei < 2 && num(2) != 0 {
+			b, ok := c27ParseBundle(p[2])
+			if !ok || (ei < 2 && len(b) > 0) {
 				return "bad-op"
 			}
-			outs = append(outs, cbArray(cbBytes(g1Addr(7)), val(num(1), num(2))))
+			for _, e := range b {
+				if e.q.Sign() < 0 || !e.q.IsUint64() {
+					return "bad-op"
+				}
+			}
+			outs = append(outs, cbArray(cbBytes(g1Addr(7)), val(num(1), b)))
+		case "m":
+			b, ok := c27ParseBundle(p[1])
+			if !ok || ei < 2 || mintB != nil {
+				return "bad-op"
+			}
+			for _, e := range b {
+				if !e.q.IsInt64() {
+					return "bad-op"
+				}
+			}
+			mintB = b
 		case "w":
 			nW++
 			wkv = append(wkv, cbBytes(append([]byte{0xe1}, c27Hash28(0xd0, nW)...)), cbUint(num(1)))
@@ -320,7 +529,8 @@ func runC27(op string) string {
 			if len(p) < 2 {
 				return "bad-op"
 			}
-			cred := c27Cred(len(certs) + 1)
+			credId := len(certs) + 1
+			cred := c27Cred(credId)
 			pool := cbBytes(c27Hash28(0xb0, 1))
 			drep := cbArray(cbUint(2))
 			switch p[1] {
@@ -358,6 +568,8 @@ func runC27(op string) string {
 				certs = append(certs, cbArray(cbUint(16), cred, cbUint(num(2)), cbNull()))
 			case "dunreg":
 				certs = append(certs, cbArray(cbUint(17), cred, cbUint(num(2))))
+				// the ledger state records the deposit this DRep paid
+				dreps = append(dreps, common.DRepRegistration{Credential: common.NewBlake2b224(c27Hash28(0xc0, credId)), Deposit: num(3)})
 			default:
 				return "bad-op"
 			}
@@ -372,15 +584,17 @@ func runC27(op string) string {
 	if len(wkv) > 0 {
 		kv = append(kv, cbUint(5), cbMap(wkv...))
 	}
-	mkv := [][]byte{}
-	if zmint != 0 {
-		mkv = append(mkv, cbBytes(make([]byte, 28)), cbMap(cbBytes([]byte{}), cbInt(big.NewInt(zmint))))
+	if len(mintB) > 0 {
+		kv = append(kv, cbUint(9), c27BundleCbor(mintB))
 	}
-	if mint.Sign() != 0 {
-		mkv = append(mkv, cbBytes(policy), cbMap(cbBytes(name), cbInt(mint)))
+	if len(colls) > 0 {
+		kv = append(kv, cbUint(13), cbArray(colls...))
 	}
-	if len(mkv) > 0 {
-		kv = append(kv, cbUint(9), cbMap(mkv...))
+	if collRet != nil {
+		kv = append(kv, cbUint(16), collRet)
+	}
+	if totalColl != nil {
+		kv = append(kv, cbUint(17), cbUint(*totalColl))
 	}
 	if len(props) > 0 {
 		kv = append(kv, cbUint(20), cbArray(props...))
@@ -388,15 +602,19 @@ func runC27(op string) string {
 	if don > 0 {
 		kv = append(kv, cbUint(22), cbUint(don))
 	}
-	raw := g1Envelope(era, cbMap(kv...), cbMap(), true, nil, 0, 0)
+	raw := g1Envelope(era, cbMap(kv...), cbMap(), valid, nil, 0, 0)
 	tx, derr := g1DecodeTx(era, raw)
 	if derr != nil {
 		return "decode-err"
 	}
-	ls := mockledger.NewLedgerStateBuilder().WithUtxos(utxos).WithPoolRegistrations(pools).WithNetworkId(1).Build()
+	if ei >= 3 && tx.IsValid() != valid {
+		return "build-mismatch"
+	}
+	ls := mockledger.NewLedgerStateBuilder().WithUtxos(utxos).WithPoolRegistrations(pools).
+		WithDRepRegistrations(dreps).WithNetworkId(1).Build()
 	pp := g1Pparams(era, g1PP{MinFeeA: 0, MinFeeB: 0, MaxTxSize: 1 << 20, Major: 9, MaxValueSize: 5000,
 		KeyDeposit: uint(kd), PoolDeposit: uint(pd), DRepDeposit: dd, GovDeposit: 100000000000})
-	vc, bad := "ok", 0
+	vc, bad, dep := "ok", 0, 0
 	for _, rule := range g1Rules(era) {
 		e := safeRule(rule, tx, 10, ls, pp)
 		if e == nil {
@@ -405,7 +623,6 @@ func runC27(op string) string {
 		var e1 shelley.ValueNotConservedUtxoError
 		var e2 shelley.InvalidCertificateDepositError
 		var e3 shelley.BadInputsUtxoError
-		var e4 conway.TreasuryDonationWithPlutusV1V2Error
 		switch {
 		case errors.As(e, &e1):
 			vc = "vnc"
@@ -413,9 +630,22 @@ func runC27(op string) string {
 			vc = "baddep"
 		case errors.As(e, &e3):
 			bad = 1
-		case errors.As(e, &e4):
-			vc = "err:donation"
+		case c27IsIncorrectDeposit(e):
+			dep = 1
 		}
 	}
-	return fmt.Sprintf("vc=%s bad=%d", vc, bad)
+	_ = conway.UtxoValidationRules
+	return fmt.Sprintf("vc=%s bad=%d dep=%d", vc, bad, dep)
+}
+
+// c27IsIncorrectDeposit recognises conway.IncorrectCertificateDepositError by type name,
+// so that the harness still compiles against a repository that lacks the rule.
+func c27IsIncorrectDeposit(e error) bool {
+	for e != nil {
+		if strings.HasSuffix(fmt.Sprintf("%T", e), "IncorrectCertificateDepositError") {
+			return true
+		}
+		e = errors.Unwrap(e)
+	}
+	return false
 }
